@@ -144,6 +144,27 @@ theorem sortRows_stable (cols : List String) (rows : List (List (Cell α))) (k :
     simp only [List.foldr_cons]
     rw [insertRow_filter, ih, List.filter_cons]
 
+/-- a table whose rows already come in non-decreasing date order is left exactly as it is: no row moves, so the
+concatenation order of the groups (and the particle order inside each) IS the row order of the table -/
+theorem sortRows_of_sorted (cols : List String) (rows : List (List (Cell α)))
+    (h : List.Pairwise (fun a b => dateKey cols a ≤ dateKey cols b) rows) : sortRows cols rows = rows := by
+  induction rows with
+  | nil => rfl
+  | cons r rs ih =>
+    rw [List.pairwise_cons] at h
+    have e : sortRows cols (r :: rs) = insertRow cols r (sortRows cols rs) := rfl
+    rw [e, ih h.2]
+    cases rs with
+    | nil => rfl
+    | cons x xs =>
+      simp only [insertRow]
+      rw [if_neg (not_lt.mpr (h.1 x (List.mem_cons_self)))]
+
+/-- sorting twice is sorting once (`sort_values('date')` applied to its own output changes nothing) -/
+theorem sortRows_idem (cols : List String) (rows : List (List (Cell α))) :
+    sortRows cols (sortRows cols rows) = sortRows cols rows :=
+  sortRows_of_sorted cols _ (sortRows_sorted cols rows)
+
 
 /-- the output rows are a permutation of the concatenation of every group's rows: each group
 contributes exactly its `num` rows and each row is carried whole.  (Stated for the model's sort; it
